@@ -86,6 +86,11 @@ CLAIMED = {
     design='5 C16',
     note='Trusted: RNG stub = NumPy seeding semantics (default_rng(int) restarts a stream, default_rng(Generator) continues it, np.random.seed resets the global stream); pints priors modelled as drawing from the global generator. Syntactic disjointness of stream variables implies independence.',
     technique='symbolic execution with a named-stream RNG stub; term identity / SMT equality of two runs; forks over random indices'),
+ 'C18': dict(
+    text='Bounded symbolic verification of inference I/O: sample_initial_parameters of hierarchical and filter posteriors over the C02/C13 compositions with a prior stub and the RNG stub (shape, population-level entries = the prior draw of the row, individual-level entries have the population law at the row\'s own population values, finite population log-density at the initial point, construction never raises); SamplingController._format_chains on a symbolic chain array (every name once, population-level = c[:,:,k], individual-level = c[:,:,k(name, individual)]); read-back through compute_pointwise_loglikelihood (individual posteriors) and PosteriorPredictiveModel (joint raw row of the selected individual).',
+    design='5 C18',
+    note='Trusted: RNG stub, prior stub, xarray object arrays, z3. Outside: the optimisation result table, running the samplers, arviz conversion; hierarchical pointwise evaluation is NotImplemented in chi.',
+    technique='symbolic execution with RNG/prior stubs + term inspection + SMT decisions of per-entry laws'),
 }
 
 NOT_APPLICABLE = {
